@@ -144,8 +144,13 @@ def kf_module_text(all_roles):
     return "\n".join(lines) + "\n", open_roles
 
 
-def inject(src, prop, all_roles):
-    """Copy harness files next to the module under test and declare them as child modules."""
+RE_MACRO_HARNESS = re.compile(r"^\w+!\((c\d\d_\w+),.*\);\s*$")
+
+
+def inject(src, prop, all_roles, selected=None):
+    """Copy harness files next to the module under test and declare them as child modules.
+    Macro-generated shape harnesses (`xyz_h!(c09_chain3_s05, ...);` lines) that are not selected are left out:
+    kani-compiler generates code for every harness in the crate, whether it is run or not."""
     kf_text, open_roles = kf_module_text(all_roles)
     support = open(os.path.join(VERIF, "harness", "support.rs")).read() \
         if os.path.exists(os.path.join(VERIF, "harness", "support.rs")) else ""
@@ -156,6 +161,12 @@ def inject(src, prop, all_roles):
         modname = "verif_kani_" + os.path.splitext(os.path.basename(hfile))[0]
         dst = os.path.join(os.path.dirname(owner_path), modname + ".rs")
         text = open(os.path.join(VERIF, "harness", hfile)).read()
+        if selected is not None:
+            keep = []
+            for line in text.split("\n"):
+                m = RE_MACRO_HARNESS.match(line)
+                keep.append("" if (m and m.group(1) not in selected) else line)
+            text = "\n".join(keep)
         # generated parts go to the END so that line numbers of the harness stay those of /verif/harness
         text += "\n// ---- generated by vrun ----\n" + kf_text + support
         open(dst, "w").write(text)
@@ -410,9 +421,9 @@ def check_property(prop_id, prop, tier, seed, only=None, jobs=None):
     try:
         scratch, src = make_scratch(prop_id)
         os.makedirs(os.path.join(scratch, "logs"))
-        open_roles = inject(src, prop, all_roles)
-        cuts = apply_cuts(src, prop, tier)
         insts = select_instances(prop, tier, seed, only)
+        open_roles = inject(src, prop, all_roles, {i["fn"] for i in insts})
+        cuts = apply_cuts(src, prop, tier)
         # witness harnesses run only for OPEN known findings
         insts = [i for i in insts if not i.get("kf_witness") or i["kf_witness"] in open_roles]
         if not insts:
